@@ -310,6 +310,7 @@ func recordLevel(c *ev.Ctx) {
 				hists[w]["tamper-rejected"]++
 			}
 		}
+		scratch := append([]byte(nil), rec...)
 		for o := 0; o < len(rec); o++ {
 			if o == 3 || o == 4 {
 				continue
@@ -321,13 +322,14 @@ func recordLevel(c *ev.Ctx) {
 				if c.Quick() && o >= 5 && b != 0 && b != 7 && len(rec) > 60 {
 					continue
 				}
-				mut := append([]byte(nil), rec...)
-				mut[o] ^= 1 << b
+				// Decrypt works on its own copy: flip in a scratch copy of the record and restore afterwards
+				scratch[o] ^= 1 << b
 				where := "body"
 				if o < 3 {
 					where = "header type/version"
 				}
-				tamper(mut, fmt.Sprintf("flip bit %d of byte %d (%s)", b, o, where))
+				tamper(scratch, fmt.Sprintf("flip bit %d of byte %d (%s)", b, o, where))
+				scratch[o] ^= 1 << b
 			}
 		}
 		// truncations and extension (length field adjusted, as a framing layer would see them)
@@ -340,7 +342,11 @@ func recordLevel(c *ev.Ctx) {
 			if len(rec) > 100 && n > 45 && n < len(rec)-40 {
 				continue
 			}
-			tamper(fixlen(append([]byte(nil), rec[:n]...)), fmt.Sprintf("truncate to %d of %d bytes", n, len(rec)))
+			tamper(fixlen(scratch[:n]), fmt.Sprintf("truncate to %d of %d bytes", n, len(rec)))
+			scratch[3], scratch[4] = rec[3], rec[4]
+		}
+		if !bytes.Equal(scratch, rec) {
+			c.Broken("record level: scratch record not restored")
 		}
 		tamper(fixlen(append(append([]byte(nil), rec...), 0)), "extend by one zero byte")
 		c.States.Add(1)
